@@ -106,3 +106,37 @@ PROPS["C05"] = dict(
          "distinct_nontrivial = distinct (alphabet, byte string) inputs, each run on six backend configurations.",
     assumptions=["InvalidSymbol carries the offending byte as a char (bytes >= 0x80 as Latin-1 code points)"],
 )
+
+
+PROPS["C01"] = dict(
+    mc=[
+        dict(name="MC_Score_C2", module="MC_Score", invariants=["KernelRefines", "FullScanOK"], actions=["Pick"],
+             constants=dict(C=2, Vals="{0, 1, 3}"),
+             quick=dict(MaxLen=4, MaxM=2, WVals="{0}"), thorough=dict(MaxLen=6, MaxM=2, WVals="{0}")),
+        dict(name="MC_Score_C2_ninf", module="MC_Score", invariants=["KernelRefines", "FullScanOK"], actions=["Pick"],
+             constants=dict(C=2, Vals="<- Vals01N", WVals="<- ValsN"),
+             quick=dict(MaxLen=4, MaxM=2), thorough=dict(MaxLen=6, MaxM=2)),
+        dict(name="MC_Score_C3_M3", module="MC_Score", invariants=["KernelRefines", "FullScanOK"], actions=["Pick"],
+             constants=dict(C=3, Vals="{0, 1}", WVals="<- ValsN"),
+             quick=dict(MaxLen=4, MaxM=3), thorough=dict(MaxLen=7, MaxM=3)),
+        dict(name="MC_Score_C1_M4", module="MC_Score", invariants=["KernelRefines", "FullScanOK"], actions=["Pick"],
+             constants=dict(C=1, Vals="{0, 2}", WVals="{0}"),
+             quick=dict(MaxLen=4, MaxM=3), thorough=dict(MaxLen=6, MaxM=4), tiers=("thorough",)),
+    ],
+    record=True, trace="Trace_C01", shards=12,
+    level_text="WindowScore is the D-layer definition; the column-wise kernel reading the striped matrix with look-ahead "
+               "rows is model-checked against it for every small sequence, matrix (finite and -inf cells) and row "
+               "sub-range, including look-ahead deeper than the sequence rows; every recorded scoring call of the real "
+               "generic (C=1,2,4,16,32) / SSE2 (16,32) / AVX2 / dispatched (each arm forced) pipelines, DNA (permute "
+               "path) and protein (gather path), through score / score_into (reused buffer) / score_rows_into / "
+               "ScoringMatrix::score / score_position / unstripe / Index is validated cell by cell by TLC. Scores live "
+               "on a dyadic grid so that the comparison is exact (no floating-point tolerance needed).",
+    level_note="Numeric accuracy on non-grid matrices is outside the technique (only exact grid matrices are decided). "
+               "MC bounded to C<=3, L<=7, M<=4; real sizes by sampled executions (every L<=C*3+6 (quick) / <=140 "
+               "(thorough), 1031, 8190..8194 in thorough). NEON not executable. Trusted: TLC, Json module, grid conversion.",
+    rule="impl->spec: one event per scoring call {backend, arm, alphabet, C, api, seq, pssm, wrap, row range, shape, "
+         "all cells, unstriped list, sampled Index}; distinct_nontrivial = distinct (backend, arm, alphabet, C, L, M, "
+         "range, api) tuples. Classes count L<M, L=M, look-ahead deeper than rows, sub-ranges, wildcards in sequence.",
+    assumptions=["grid matrices: entries k/4 with |k|<=20 or -inf, so every partial sum is exact in f32 in any order",
+                 "in-contract calls only: look-ahead rows >= M-1, row range within the sequence rows"],
+)
